@@ -649,7 +649,7 @@ def run(ctx):
     deep = [te.rotated(s, i % 3) for i, s in enumerate(
         s for s in _roots(te.shapes(3)) if te.depth_of(s) == 3)]
     plan += [
-        ('single', deep, {'values': ('int', 'dict'), 'multi': 0,
+        ('single', deep, {'values': ('dict',), 'multi': 0,
                           'one_key': False}),
         ('chain', d2, {'length': 2, 'values': VALUES_CHAIN,
                        'forms': two_forms}),
@@ -677,7 +677,7 @@ def run(ctx):
       % (len(d2), len(spine3),
          '' if quick else '; single sets, reads, iteration and apply also on '
          'every depth-3 shape with <= 2 children per node, leaf kinds '
-         'rotating (%d trees, values int/dict)' % len(deep),
+         'rotating (%d trees, value dict; int into ndarray elements)' % len(deep),
          ' (int, dict on the depth-3 trees)' if quick else '',
          ' (depth <= 2)' if quick else ' and triples (depth <= 2)',
          ' (one starting offset per shape)' if quick else
